@@ -13,9 +13,17 @@ type zzAssignClient struct {
 	ctx  context.Context
 	got  []*proto.ShardAssignments
 	sent chan int
+	// called while the FIRST message (the initial map) is being sent: the window between the dispatcher's
+	// snapshot of the map and the client's first receive
+	duringFirstSend func()
 }
 
 func (c *zzAssignClient) Send(a *proto.ShardAssignments) error {
+	if len(c.got) == 0 && c.duringFirstSend != nil {
+		f := c.duringFirstSend
+		c.duringFirstSend = nil
+		f()
+	}
 	c.got = append(c.got, a)
 	c.sent <- len(c.got)
 	return nil
@@ -53,7 +61,16 @@ func zzAssignments(gen int64, n int, other bool) *proto.ShardAssignments {
 // namespace's part of a map the coordinator pushed (so it partitions the hash space); messages arrive in
 // push order; and when the client is still registered at quiescence, the last thing it was sent is the
 // dispatcher's current map — a cut-off client learns the current map when it registers again.
-func ZZDispatcher(more int) {
+func ZZDispatcher(more int) { zzDispatcher(more, false) }
+
+// ZZDispatcherWindow (C18): the same, with one more map pushed by the coordinator exactly while the client's
+// INITIAL message is being sent (after the dispatcher took its snapshot, before the client reads updates): the
+// update must not fall into the gap — either it is delivered later or the client is cut off and learns it when it
+// registers again; a client that stays registered with an older map than the dispatcher's would route keys to
+// shards or leaders that no longer exist, indefinitely.
+func ZZDispatcherWindow(more int) { zzDispatcher(more, true) }
+
+func zzDispatcher(more int, window bool) {
 	ctx, cancel := context.WithCancel(context.Background())
 	s := &shardAssignmentDispatcher{healthServer: health.NewServer(), clients: map[int64]chan *proto.ShardAssignments{}, log: slog.Default(), ctx: ctx, cancel: cancel}
 	pushed := []*proto.ShardAssignments{zzAssignments(0, 2, false)}
@@ -61,6 +78,13 @@ func ZZDispatcher(more int) {
 	vAssert("first-push", s.updateShardAssignment(pushed[0]) == nil)
 	vAssert("unknown-namespace-is-refused", s.RegisterForUpdates(&proto.ShardAssignmentsRequest{Namespace: "nope"}, &zzAssignClient{ctx: ctx, sent: make(chan int, 8)}) != nil)
 	cl := &zzAssignClient{ctx: ctx, sent: make(chan int, 16)}
+	if window {
+		cl.duringFirstSend = func() {
+			a := zzAssignments(500, 3, false)
+			pushed = append(pushed, a)
+			vAssert("push-ok", s.updateShardAssignment(a) == nil)
+		}
+	}
 	regDone := make(chan error, 1)
 	vGo("client-stream", func() { regDone <- s.RegisterForUpdates(&proto.ShardAssignmentsRequest{}, cl) })
 	<-cl.sent // the initial map
@@ -72,8 +96,12 @@ func ZZDispatcher(more int) {
 	}
 	vSettle(30)
 	s.Lock()
-	_, stillRegistered := s.clients[0]
+	clientCh, stillRegistered := s.clients[0]
 	current := s.assignments
+	// The engine models the unbuffered hand-off channel with one slot: a map may sit in the slot, already "sent" by
+	// the dispatcher and not yet taken by the client goroutine — in Go the receiver would be committed to it. Such a
+	// state is not quiescent; natively len() of an unbuffered channel is always 0.
+	inFlight := stillRegistered && len(clientCh) > 0
 	s.Unlock()
 	cancel()
 	<-regDone
@@ -92,6 +120,9 @@ func ZZDispatcher(more int) {
 		last = idx
 	}
 	if stillRegistered {
+		if !inFlight {
+			vAssert("a-client-that-stays-registered-has-the-current-map", last == len(pushed)-1)
+		}
 		vReach("client-kept-up")
 	} else {
 		vReach("client-cut-off")
